@@ -113,11 +113,13 @@ theorem unpackPackage_outside (ca : Option Nat) (q : Path) (hq : ¬ srcDir ++ [p
     exact loop_outside fs srcDir pfx ar hk hfs hcanon _ q hq
   · exact loop_outside fs srcDir pfx ar hk hfs hcanon _ q hq
 
-theorem loop_marker (hnm : ∀ e ∈ ar, relOf e ≠ [pfx, 0]) (k : Nat) :
+/-- no processed entry writes a file at the completion marker (the archive's own marker entry is
+skipped): the marker path is absent or, at most, a directory -/
+theorem loop_marker (k : Nat) :
     lookup (unpackEntries (fs0 fs srcDir pfx) srcDir pfx ar k).1 (markerPath srcDir pfx) = none ∨
     lookup (unpackEntries (fs0 fs srcDir pfx) srcDir pfx ar k).1 (markerPath srcDir pfx) = some .dir := by
   rcases (loop_rel fs srcDir pfx ar hk hfs hcanon k).1 (markerPath srcDir pfx) with
-    e | ⟨_, ⟨e, _⟩ | ⟨e, he, heq, _⟩⟩
+    e | ⟨_, ⟨e, _⟩ | ⟨e, _, heq, hne, _⟩⟩
   · left
     rw [e, lookup_fs0]
     have h1 : markerPath srcDir pfx ≠ srcDir ++ [pfx] := by
@@ -128,9 +130,9 @@ theorem loop_marker (hnm : ∀ e ∈ ar, relOf e ≠ [pfx, 0]) (k : Nat) :
   · right; exact e
   · exfalso
     have := List.append_cancel_left heq
-    exact hnm e he this.symm
+    exact hne this.symm
 
-theorem fetchIsOk_crashed (hnm : ∀ e ∈ ar, relOf e ≠ [pfx, 0]) (k : Nat) :
+theorem fetchIsOk_crashed (k : Nat) :
     fetchIsOk (unpackPackage fs srcDir pfx ar (some k)) srcDir pfx = false := by
   have hup : unpackPackage fs srcDir pfx ar (some k) =
       (unpackEntries (fs0 fs srcDir pfx) srcDir pfx ar k).1 := by
@@ -141,7 +143,7 @@ theorem fetchIsOk_crashed (hnm : ∀ e ∈ ar, relOf e ≠ [pfx, 0]) (k : Nat) :
   · rename_i r hr
     have := canon_of_NL (loop_rel fs srcDir pfx ar hk hfs hcanon k).2 [pfx, 0] r hr
     subst this
-    rcases loop_marker fs srcDir pfx ar hk hfs hcanon hnm k with h | h
+    rcases loop_marker fs srcDir pfx ar hk hfs hcanon k with h | h
     · simp only [markerPath] at h; rw [h]; rfl
     · simp only [markerPath] at h; rw [h]; rfl
   · rfl
